@@ -8,7 +8,7 @@
    u_done u = true <-> the stream saw the segment with the c bit and the end frame, i.e. close() sends the
    end response (when no error was flagged). *)
 From Coq Require Import ZArith List Bool.
-From CV Require Import Base.Val Base.Bytes Model.Crc Model.RefBlockServer Model.BlockDl Model.BlockUl Proofs.Crc_proofs Proofs.Block_proofs.
+From CV Require Import Base.Val Base.Bytes Model.Crc Model.RefBlockServer Model.BlockDl Model.BlockUl Proofs.Crc_proofs Proofs.Block_proofs Gen.SdoTables Gen.SrcC13 Proofs.Src_eq_c13.
 Import ListNotations.
 Open Scope Z_scope.
 
@@ -96,6 +96,92 @@ Proof. exact crc_single_bit. Qed.
 Theorem C13_crc_chunkwise : forall c chunks, fold_left crc_from chunks c = crc_from c (concat chunks).
 Proof. exact crc_from_concat. Qed.
 
+(* ---- Tie (c): source text -> model.  Gen/SrcC13.v is regenerated from the text of canopen/sdo/client.py on every run
+   (tools/tables/src_c13.py).  SK u timed_out cmd_d cmd_r ack_r n cm dl = the translated read() on the stream state u
+   (no _pending, size >= 0): timed_out = read_response() raised, cmd_d = command byte of the frame it returned,
+   cmd_r / ack_r = command byte of the frame _retransmit() returned and the _ackseq it left, n = result of _end_upload(),
+   cm = "announced CRC = CRC of the data", dl = len(data).  rd_* are the components of its result. ---- *)
+Theorem C13_src_read_dispatch : forall (S : Type) (srv : S -> frame -> S * list frame) u (w : @net S),
+  ul_read srv u w =
+  if rd_code (SK u false 0 0 0 0 true 0) =? 12 then (Ok [], u, w)
+  else
+    let via_retransmit w1 :=
+      match ul_retransmit srv u w1 with
+      | (Ok response', u2, w2) => read_tail srv u2 w2 response'
+      | (Err k, u2, w2) => (Err k, u2, w2)
+      | (Abort a, u2, w2) => (Abort a, u2, w2)
+      end in
+    match read_response w with
+    | (Abort a, w1) => (Abort a, u, w1)
+    | (Err _, w1) => via_retransmit w1
+    | (Ok response, w1) =>
+        let t := SK u false (fb response 0) 0 0 0 true 0 in
+        if rd_nretx t =? 0 then read_tail srv (set_ackseq u (rd_ackseq t)) w1 response else via_retransmit w1
+    end.
+Proof. exact @src_ul_read_dispatch_eq. Qed.
+
+Theorem C13_src_read_tail : forall (S : Type) (srv : S -> frame -> S * list frame) u (w : @net S) resp,
+  u_done u = false ->
+  read_tail srv u w resp =
+  let sk := SK u true 0 (fb resp 0) (u_ackseq u) in
+  let t0 := sk 0 true 0 in
+  let '(u1, w1) := if rd_acked t0 then ack_block srv u w else (u, w) in
+  let fin n (u2 : ul) (w2 : @net S) : @RU S (list Z) :=
+    let data := skipn 1 (firstn (Z.to_nat (rd_hi (sk n true 0))) resp) in
+    let crc' := if u_crcsup u then crc_from (u_crc u) data else u_crc u in
+    let cm := match u_scrc u2 with Some sc => sc =? crc' | None => false end in
+    let t := sk n cm (zlen data) in
+    let u3 := mkul (rd_done t) (rd_pos t) (if rd_crcp t then crc_from (u_crc u) data else u_crc u) (u_scrc u2)
+                   (u_ackseq u2) (rd_err t) (u_size u) (u_crcsup u) (u_blksize u) in
+    if rd_code t =? 0 then (Err E_SDOCOMM, u3, client_abort srv w2 (rd_abort t)) else (Ok data, u3, w2) in
+  if negb (Z.land (rd_rc t0) NO_MORE_BLOCKS =? 0) then
+    match end_upload srv u1 w1 with
+    | (Ok n, u2, w2) => fin n u2 w2
+    | (Err k, u2, w2) => (Err k, u2, w2)
+    | (Abort a, u2, w2) => (Abort a, u2, w2)
+    end
+  else fin 0 u1 w1.
+Proof. exact @src_ul_read_tail_eq. Qed.
+
+Theorem C13_src_ack_block : forall (S : Type) (srv : S -> frame -> S * list frame) u (w : @net S),
+  ack_block srv u w =
+  let '(b0, b1, b2, sent, a') := src_ul_ack_block (u_ackseq u) (u_blksize u) 0 0 0 false in
+  (set_ackseq u a', if sent then send_request srv w [b0; b1; b2; 0; 0; 0; 0; 0] else w).
+Proof. exact @src_ul_ack_block_eq. Qed.
+
+Theorem C13_src_end_upload : forall (S : Type) (srv : S -> frame -> S * list frame) u (w : @net S),
+  end_upload srv u w =
+  match read_response w with
+  | (Err k, w1) => (Err k, u, w1)
+  | (Abort a, w1) => (Abort a, u, w1)
+  | (Ok r, w1) =>
+      let u1 := mkul (u_done u) (u_pos u) (u_crc u) (Some (fb r 1 + 256 * fb r 2)) (u_ackseq u)
+                     (u_error u) (u_size u) (u_crcsup u) (u_blksize u) in
+      let '(ok, v) := src_ul_end_upload (fb r 0) 0 in
+      if ok =? 1 then (Ok v, u1, w1) else (Err E_SDOCOMM, set_error u1, client_abort srv w1 v)
+  end.
+Proof. exact @src_ul_end_upload_eq. Qed.
+
+Theorem C13_src_readinto : forall (S : Type) (srv : S -> frame -> S * list frame) k u pend (w : @net S), 0 <= k ->
+  match pend with
+  | [] =>
+      forall d u1 w1, ul_read srv u w = (Ok d, u1, w1) ->
+      ul_readinto srv k u [] w = ((Ok (firstn (Z.to_nat k) d), u1, w1), skipn (Z.to_nat k) d) /\
+      src_ul_readinto k 0 (zlen d) false = (true, zlen (firstn (Z.to_nat k) d), zlen (skipn (Z.to_nat k) d))
+  | _ =>
+      ul_readinto srv k u pend w = ((Ok (firstn (Z.to_nat k) pend), u, w), skipn (Z.to_nat k) pend) /\
+      forall rlen, src_ul_readinto k (zlen pend) rlen false =
+                   (false, zlen (firstn (Z.to_nat k) pend), zlen (skipn (Z.to_nat k) pend))
+  end.
+Proof. exact @src_ul_readinto_eq. Qed.
+
+Theorem C13_src_close : forall (S : Type) (srv : S -> frame -> S * list frame) u (w : @net S),
+  ul_close srv u w =
+  (let '(b0, sent) := src_ul_close false (u_done u) (u_error u) 0 false in
+   if sent then send_request srv w [b0; 0; 0; 0; 0; 0; 0; 0] else w) /\
+  forall d e b s, src_ul_close true d e b s = (b, s).
+Proof. exact @src_ul_close_eq. Qed.
+
 (* ---- non-vacuity ---- *)
 Example C13_nv_exact :
   let V := gen_bytes 20 1 in
@@ -115,3 +201,9 @@ Print Assumptions C13_readinto_same_stream.
 Print Assumptions C13_readinto_exact.
 Print Assumptions C13_crc_single_bit.
 Print Assumptions C13_crc_chunkwise.
+Print Assumptions C13_src_read_dispatch.
+Print Assumptions C13_src_read_tail.
+Print Assumptions C13_src_ack_block.
+Print Assumptions C13_src_end_upload.
+Print Assumptions C13_src_readinto.
+Print Assumptions C13_src_close.
